@@ -317,6 +317,7 @@ type pxRig struct {
 	orig     map[int64]*Rpc
 	byId     map[uint64]int64
 	bareOwner map[error]*pxRec
+	hterms    bool          // emit the held-model terms (HHold / HRelease / HWait / HA ...)
 	holdName  int64         // the disconnect callback for this name blocks ...
 	holdCh    chan struct{} // ... until this is closed
 	lastDrop int64
@@ -556,6 +557,9 @@ func (r *pxRig) do(a PAct) string {
 		r.mu.Lock()
 		r.holdName, r.holdCh = a.N, make(chan struct{})
 		r.mu.Unlock()
+		if rec := r.find(a.N, 0); rec != nil && r.hterms {
+			return fmt.Sprintf("HHold %d", rec.idx)
+		}
 		return ""
 	case "release":
 		r.mu.Lock()
@@ -564,9 +568,15 @@ func (r *pxRig) do(a PAct) string {
 			r.holdCh = nil
 		}
 		r.mu.Unlock()
+		if r.hterms {
+			return "HRelease"
+		}
 		return ""
 	case "wait": // inside a group: let the proxy settle before the next action of the group (no step boundary)
 		synctest.Wait()
+		if r.hterms {
+			return "HWait"
+		}
 		return ""
 	}
 	panic("unknown op " + a.Op)
@@ -762,7 +772,7 @@ func runPxScenario(t *testing.T, idx int, kind string, sc pxScenario, em *Emitte
 	wstep, wstop := pxGuardWedge(em, idx, kind, sc, sc.Tags)
 	defer wstop()
 	leaked := bubble(t, func(t *testing.T) {
-		rig := &pxRig{sc: sc}
+		rig := &pxRig{sc: sc, hterms: kind == "proxy-held"}
 		rig.start()
 		synctest.Wait()
 		for _, group := range sc.Steps {
@@ -770,6 +780,9 @@ func runPxScenario(t *testing.T, idx int, kind string, sc pxScenario, em *Emitte
 			var terms []string
 			for _, a := range group {
 				if term := rig.do(a); term != "" {
+					if rig.hterms && !strings.HasPrefix(term, "H") {
+						term = "HA (" + term + ")"
+					}
 					terms = append(terms, term)
 				}
 			}
@@ -804,7 +817,7 @@ func runPxScenario(t *testing.T, idx int, kind string, sc pxScenario, em *Emitte
 		tags = append(tags, "leaked-at-end")
 	}
 	em.Emit(Rec{Idx: idx, Kind: kind, Desc: sc, Obs: obsList, Tags: tags,
-		Coq: fmt.Sprintf("%s %d %d %d %s %s", map[string]string{"proxy": "CProxy", "proxy-loose": "CProxyLoose", "proxy-red": "CProxyRed"}[kind],
+		Coq: fmt.Sprintf("%s %d %d %d %s %s", map[string]string{"proxy": "CProxy", "proxy-loose": "CProxyLoose", "proxy-red": "CProxyRed", "proxy-held": "CProxyHeld"}[kind],
 			pxProxyName, buf, sc.Icp, coqList(coqSteps), coqList(coqObs))})
 	em.Marker("end", idx)
 }
